@@ -42,6 +42,7 @@ type Solver struct {
 	Log       io.Writer
 	LastErr   string
 	dead      bool
+	stack     []*Term // assertions currently on the solver's assertion stack (one push level each)
 }
 
 func NewSolver(ctx *Ctx, kind string, timeoutMs int) (*Solver, error) {
@@ -91,6 +92,8 @@ func (s *Solver) start() error {
 		s.send("(set-logic ALL)")
 	}
 	s.send("(set-option :produce-models true)")
+	s.send("(set-option :global-declarations true)")
+	s.stack = nil
 	return nil
 }
 
@@ -214,24 +217,35 @@ func (s *Solver) Check(asserts []*Term, want []*Term) (Result, map[*Term]*big.In
 	t0 := time.Now()
 	defer func() { s.TimeSpent += time.Since(t0) }()
 	s.Queries++
+	var live []*Term
 	for _, a := range all {
-		s.define(a)
+		if !a.IsTrue() {
+			live = append(live, a)
+		}
+	}
+	// keep the common prefix of the previous query asserted (incremental reuse)
+	k := 0
+	for k < len(s.stack) && k < len(live) && s.stack[k] == live[k] {
+		k++
+	}
+	if n := len(s.stack) - k; n > 0 {
+		s.send(fmt.Sprintf("(pop %d)", n))
+		s.stack = s.stack[:k]
 	}
 	for _, w := range want {
 		s.define(w)
 	}
-	s.send("(push 1)")
-	for _, a := range all {
-		if !a.IsTrue() {
-			s.send("(assert " + ref(a) + ")")
-		}
+	for _, a := range live[k:] {
+		s.define(a)
+		s.send("(push 1)")
+		s.send("(assert " + ref(a) + ")")
+		s.stack = append(s.stack, a)
 	}
 	s.send("(check-sat)")
 	ans := s.readLine()
 	for strings.HasPrefix(ans, "(error") || strings.HasPrefix(ans, "(warning") || ans == "" {
 		if strings.HasPrefix(ans, "(error") {
 			s.LastErr = ans
-			s.send("(pop 1)")
 			s.restart()
 			return Unknown, nil
 		}
@@ -258,7 +272,6 @@ func (s *Solver) Check(asserts []*Term, want []*Term) (Result, map[*Term]*big.In
 			}
 		}
 	}
-	s.send("(pop 1)")
 	if len(want) == 0 && res != Unknown {
 		s.cache[key] = res
 	}
